@@ -32,7 +32,7 @@ ASSUMPTIONS = [
 
 
 def n_cases(ctx):
-    return (1200, 200, 200) if ctx.quick else (16000, 1500, 1500)
+    return (800, 100, 100) if ctx.quick else (12000, 1000, 1000)
 
 
 def canon(res):
